@@ -474,6 +474,7 @@ func TestVerif_C05_LeasesNamespaces(t *testing.T) {
 	rec := verifx.NewRecorder("C05", "leases-namespaces", "rapid state machine on a real core with the namespaces root, n1/, n1/n2/ and the separately sealed s/ (shamir 1-of-1), a recording backend mounted as rb/ in each with its own max_lease_ttl (2h/100m/80m/1h) and each namespace's token mount tuned (3h/150m/2h/100m): issue leased secrets in a generated namespace with a token of that namespace or of one above it, create tokens (ttl / explicit_max_ttl / period), renew (sys/leases/renew, auth/token/renew-self), revoke, revoke-prefix, revoke with one failing storage operation, move a lease's issue/expiry into the past, seal and unseal s/, delete n1/n2/ and then n1/, restart on the same storage (s/ comes back sealed) and restart on the store after a crash prefix of the last lease operation's writes; oracle after every step at quiescence: in every unsealed namespace every lease id in that namespace's storage is tracked in exactly one of pending/nonexpiring/irrevocable, nothing of a sealed or deleted namespace is tracked or served, granted expiries stay within issue + effective maximum, dead/non-renewable/expired leases are not renewed, revoked leases stay gone, leases of a deleted namespace left storage (whether the backend saw their revocation, and whether they stay tracked, is only counted as observation classes), an expired lease is revoked once its namespace's leases are restored; non-trivial = a lease in a non-root namespace AND (an unseal of s/ holding >=1 generated lease, or a restart with >=2 generated leases stored outside the root namespace)")
 	defer rec.Flush()
 	rapid.Check(t, func(rt *rapid.T) {
+		defer recoverWedged(rec)
 		w := newC05nWorld(t, rapid.Bool().Draw(rt, "transactionalStorage"))
 		defer func() { w.tc.shutdown() }()
 		restarts, crashes, toggles := 0, 0, 0
